@@ -7,9 +7,19 @@ namespace Ser
 
 /-- the text after a number does not continue it -/
 def NumEnd (rest : List Char) : Prop :=
-  ∀ c r, rest = c :: r → c.isDigit = false ∧ c ≠ '.' ∧ c ≠ 'e' ∧ c ≠ 'E'
+  ∀ c r, rest = c :: r → isNumChar c = false
 
 theorem numEnd_nil : NumEnd [] := by intro c r h; cases h
+
+theorem isNumChar_of_isDigit {c : Char} (h : c.isDigit = true) : isNumChar c = true := by
+  simp [isNumChar, h]
+
+theorem NumEnd.notDigit {rest : List Char} (h : NumEnd rest) : ∀ c r, rest = c :: r → c.isDigit = false := by
+  intro c r e
+  have := h c r e
+  cases hd : c.isDigit with
+  | false => rfl
+  | true => rw [isNumChar_of_isDigit hd] at this; cases this
 
 theorem takeDigits_append (ds rest : List Char) (hd : ∀ c ∈ ds, c.isDigit = true)
     (hr : ∀ c r, rest = c :: r → c.isDigit = false) :
@@ -22,6 +32,20 @@ theorem takeDigits_append (ds rest : List Char) (hd : ∀ c ∈ ds, c.isDigit = 
   | cons c ds ih =>
     simp [takeDigits, hd c (by simp), ih (fun x hx => hd x (by simp [hx]))]
 
+theorem takeDigits_all (ds : List Char) (hd : ∀ c ∈ ds, c.isDigit = true) : takeDigits ds = (ds, []) := by
+  have := takeDigits_append ds [] hd (by intro c r h; cases h)
+  rwa [List.append_nil] at this
+
+theorem takeNumChars_append (tok rest : List Char) (ht : ∀ c ∈ tok, isNumChar c = true) (hr : NumEnd rest) :
+    takeNumChars (tok ++ rest) = (tok, rest) := by
+  induction tok with
+  | nil =>
+    cases rest with
+    | nil => rfl
+    | cons c r => simp [takeNumChars, hr c r rfl]
+  | cons c tok ih =>
+    simp [takeNumChars, ht c (by simp), ih (fun x hx => ht x (by simp [hx]))]
+
 theorem digitsToNat_eq (ds : List Char) : digitsToNat ds = Nat.ofDigitChars 10 ds 0 := by
   unfold digitsToNat Nat.ofDigitChars
   congr 1
@@ -30,71 +54,96 @@ theorem digitsToNat_eq (ds : List Char) : digitsToNat ds = Nat.ofDigitChars 10 d
 
 /-! ### `readNumber` in stages -/
 
-def hasExp (cs3 : List Char) : Bool := match cs3 with | 'e' :: _ | 'E' :: _ => true | _ => false
-
-theorem hasExp_false (cs3 : List Char) (hend : ∀ c r, cs3 = c :: r → c ≠ 'e' ∧ c ≠ 'E') :
-    hasExp cs3 = false := by
-  unfold hasExp
-  split
-  · exact absurd rfl (hend _ _ rfl).1
-  · exact absurd rfl (hend _ _ rfl).2
-  · rfl
-
-def readNum3 (neg : Bool) (ip fp cs3 : List Char) : Option (Except ReadErr (Value × List Char)) :=
-  if hasExp cs3 then some (.error .unsupported)
-  else
-    let n := digitsToNat (ip ++ fp)
-    let d := fp.length
-    let num : Nat := n * 2 ^ (1074 - d)
-    if d > 1074 then some (.error .unsupported)
-    else if num % (5 ^ d) != 0 then some (.error .unsupported)
-    else
-      let u : Int := (num / 5 ^ d : Nat)
-      some (.ok (.float (if neg then -u else u) (neg && n == 0), cs3))
-
-def readNum2 (neg : Bool) (ip cs2 : List Char) : Option (Except ReadErr (Value × List Char)) :=
-  if ip.isEmpty then none
-  else
-    let p : List Char × List Char := match cs2 with
-      | '.' :: r => ((takeDigits r).1, (takeDigits r).2)
-      | _ => ([], cs2)
-    readNum3 neg ip p.1 p.2
-
 theorem readNumber_neg (r : List Char) :
-    readNumber ('-' :: r) = readNum2 true (takeDigits r).1 (takeDigits r).2 := rfl
+    readNumber ('-' :: r) = parseNumTok true (takeNumChars r).1 (takeNumChars r).2 := rfl
 
 theorem readNumber_pos (c : Char) (t : List Char) (h : c ≠ '-') :
-    readNumber (c :: t) = readNum2 false (takeDigits (c :: t)).1 (takeDigits (c :: t)).2 := by
+    readNumber (c :: t) = parseNumTok false (takeNumChars (c :: t)).1 (takeNumChars (c :: t)).2 := by
   unfold readNumber
-  simp only []
   split
   · rename_i heq; cases heq; exact absurd rfl h
   · rfl
 
-theorem readNum2_dot (neg : Bool) (ip r : List Char) (h : ip ≠ []) :
-    readNum2 neg ip ('.' :: r) = readNum3 neg ip (takeDigits r).1 (takeDigits r).2 := by
-  cases ip with
-  | nil => exact absurd rfl h
-  | cons a b => rfl
+/-- a token that starts with a digit, without a leading zero followed by a digit -/
+theorem parseNumTok_digit (neg : Bool) (c : Char) (t rest : List Char) (hc : c.isDigit = true)
+    (hlz : c = '0' → ∀ d t', t = d :: t' → d.isDigit = false) :
+    parseNumTok neg (c :: t) rest = parseMantissa neg (c :: t) rest := by
+  unfold parseNumTok
+  split
+  · rename_i heq; cases heq; simp at hc
+  · rename_i heq; cases heq; simp at hc
+  · rename_i d t' heq
+    cases heq
+    simp [hlz rfl d t' rfl]
+  · rfl
 
-theorem readNum2_nodot (neg : Bool) (ip cs2 : List Char) (h : ip ≠ []) (hd : ∀ r, cs2 ≠ '.' :: r) :
-    readNum2 neg ip cs2 = readNum3 neg ip [] cs2 := by
-  cases ip with
-  | nil => exact absurd rfl h
-  | cons a b =>
-    unfold readNum2
-    simp only [List.isEmpty_cons, Bool.false_eq_true, if_false]
+theorem parseMantissa_int (neg : Bool) (ds rest : List Char) (hne : ds ≠ [])
+    (hd : ∀ c ∈ ds, c.isDigit = true) :
+    parseMantissa neg ds rest = some (numberValue neg ds [] rest) := by
+  unfold parseMantissa
+  rw [takeDigits_all ds hd]
+  cases ds with
+  | nil => exact absurd rfl hne
+  | cons c t => simp [finishNumber]
 
-theorem readNum3_ok (neg : Bool) (ip fp cs3 : List Char) (q : Nat)
-    (hend : ∀ c r, cs3 = c :: r → c ≠ 'e' ∧ c ≠ 'E') (hd : fp.length ≤ 1074)
-    (hq : digitsToNat (ip ++ fp) * 2 ^ (1074 - fp.length) = q * 5 ^ fp.length) :
-    readNum3 neg ip fp cs3 =
-      some (.ok (.float (if neg then -(q : Int) else q) (neg && digitsToNat (ip ++ fp) == 0), cs3)) := by
-  unfold readNum3
-  have h1 := hasExp_false cs3 hend
+theorem parseMantissa_dec (neg : Bool) (ip fp rest : List Char) (hfp : fp ≠ [])
+    (hipd : ∀ c ∈ ip, c.isDigit = true) (hfpd : ∀ c ∈ fp, c.isDigit = true) :
+    parseMantissa neg (ip ++ '.' :: fp) rest = some (numberValue neg ip fp rest) := by
+  unfold parseMantissa
+  rw [takeDigits_append ip ('.' :: fp) hipd (by intro c r h; cases h; rfl)]
+  simp only [takeDigits_all fp hfpd]
+  cases fp with
+  | nil => exact absurd rfl hfp
+  | cons c t => simp [finishNumber]
+
+theorem numberValue_ok (neg : Bool) (ip fp rest : List Char) (q : Nat)
+    (hd : fp.length ≤ 1074)
+    (hq : digitsToNat (ip ++ fp) * 2 ^ (1074 - fp.length) = q * 5 ^ fp.length)
+    (hrep : isFloat64Units (q : Int) = true) :
+    numberValue neg ip fp rest =
+      .ok (.float (if neg then -(q : Int) else q) (neg && digitsToNat (ip ++ fp) == 0), rest) := by
+  unfold numberValue
   have hpos : 0 < 5 ^ fp.length := Nat.pow_pos (by omega)
-  simp only [h1, Bool.false_eq_true, if_false, gt_iff_lt, Nat.not_lt.2 hd, hq,
-    Nat.mul_mod_left, bne_self_eq_false, Nat.mul_div_cancel _ hpos]
+  simp only [gt_iff_lt, Nat.not_lt.2 hd, hq,
+    Nat.mul_mod_left, bne_self_eq_false, Nat.mul_div_cancel _ hpos, Bool.false_eq_true, if_false, hrep,
+    Bool.not_true]
+
+/-- a mantissa below 2^53 scaled by a power of two within range is a float64 -/
+theorem isFloat64Units_mantissa (a e : Nat) (ha : a < 2 ^ 53) (he : e ≤ 2045) :
+    isFloat64Units ((a * 2 ^ e : Nat) : Int) = true := by
+  unfold isFloat64Units
+  simp only [Int.natAbs_natCast]
+  by_cases h0 : a * 2 ^ e = 0
+  · rw [h0]; rfl
+  · have hlt : a * 2 ^ e < 2 ^ (53 + e) := by
+      rw [Nat.pow_add]
+      exact Nat.mul_lt_mul_of_lt_of_le ha (Nat.le_refl _) (Nat.pow_pos (by omega))
+    have hbig : a * 2 ^ e < 2 ^ 2098 :=
+      Nat.lt_of_lt_of_le hlt (Nat.pow_le_pow_right (Nat.succ_pos 1) (Nat.add_le_add_left he 53))
+    have hlog : (a * 2 ^ e).log2 < 53 + e := (Nat.log2_lt h0).2 hlt
+    simp only [hbig, decide_true, Bool.true_and, Bool.or_eq_true, decide_eq_true_eq, beq_iff_eq]
+    right
+    by_cases hs : (a * 2 ^ e).log2 < 53
+    · left; exact hs
+    · right
+      have hd : 2 ^ ((a * 2 ^ e).log2 - 52) ∣ 2 ^ e := Nat.pow_dvd_pow 2 (by omega)
+      exact Nat.mod_eq_zero_of_dvd (Nat.dvd_trans hd (Nat.dvd_mul_left _ _))
+
+theorem isFloat64Units_zero_digit : isFloat64Units (((digitsToNat ['0'] : Nat) : Int) * scale) = true := by
+  have e : digitsToNat ['0'] = 0 := rfl
+  rw [e, Int.natCast_zero, Int.zero_mul]
+  rfl
+
+theorem isFloat64Units_neg (u : Int) : isFloat64Units (-u) = isFloat64Units u := by
+  unfold isFloat64Units; simp only [Int.natAbs_neg]
+
+/-- at most 15 decimal digits: below 2^53 -/
+theorem lt_two_pow_53_of_digits {n : Nat} (h : (toString n).length ≤ 15) : n < 2 ^ 53 := by
+  have hl : (toString n).length = (Nat.toDigits 10 n).length := by
+    rw [← String.length_toList, Nat.toString_eq_repr, Nat.toList_repr]
+  rw [hl] at h
+  have := (Nat.length_toDigits_le_iff (b := 10) (by omega) (by omega)).1 h
+  exact Nat.lt_trans this (by decide)
 
 theorem isDigit_ne_minus {c : Char} (h : c.isDigit = true) : c ≠ '-' := by
   intro e; subst e; simp at h
@@ -102,44 +151,90 @@ theorem isDigit_ne_minus {c : Char} (h : c.isDigit = true) : c ≠ '-' := by
 theorem natCast_mul_two_pow (n k : Nat) : ((n * 2 ^ k : Nat) : Int) = (n : Int) * (2 : Int) ^ k := by
   rw [Int.natCast_mul, Int.natCast_pow]; rfl
 
-theorem readNum3_int (neg : Bool) (ip cs3 : List Char) (hend : ∀ c r, cs3 = c :: r → c ≠ 'e' ∧ c ≠ 'E') :
-    readNum3 neg ip [] cs3 =
-      some (.ok (.float (if neg then -((digitsToNat ip : Nat) * scale) else (digitsToNat ip : Nat) * scale)
-        (neg && digitsToNat ip == 0), cs3)) := by
+theorem numberValue_int (neg : Bool) (ip rest : List Char)
+    (hrep : isFloat64Units ((digitsToNat ip : Nat) * scale) = true) :
+    numberValue neg ip [] rest =
+      .ok (.float (if neg then -((digitsToNat ip : Nat) * scale) else (digitsToNat ip : Nat) * scale)
+        (neg && digitsToNat ip == 0), rest) := by
   have hq : digitsToNat (ip ++ []) * 2 ^ (1074 - ([] : List Char).length) =
       (digitsToNat ip * 2 ^ 1074) * 5 ^ ([] : List Char).length := by
     rw [List.append_nil, List.length_nil, Nat.sub_zero, Nat.pow_zero, Nat.mul_one]
-  have h := readNum3_ok neg ip [] cs3 _ hend (Nat.zero_le _) hq
+  have h := numberValue_ok neg ip [] rest _ (Nat.zero_le _) hq
+    (by rw [natCast_mul_two_pow (digitsToNat ip) 1074]; exact hrep)
   rw [List.append_nil] at h
   rw [natCast_mul_two_pow (digitsToNat ip) 1074] at h
   exact h
 
+/-- no leading zero followed by another digit -/
+def NoLeadZero (ds : List Char) : Prop := ∀ d t, ds = '0' :: d :: t → False
+
 /-- reading a printed unsigned integer -/
 theorem readNumber_digits (neg : Bool) (ds rest : List Char) (hne : ds ≠ [])
-    (hd : ∀ c ∈ ds, c.isDigit = true) (hr : NumEnd rest) :
+    (hd : ∀ c ∈ ds, c.isDigit = true) (hlz : NoLeadZero ds) (hr : NumEnd rest)
+    (hrep : isFloat64Units ((digitsToNat ds : Nat) * scale) = true) :
     readNumber ((if neg then ['-'] else []) ++ ds ++ rest) =
       some (.ok (.float (if neg then -((digitsToNat ds : Nat) * scale) else (digitsToNat ds : Nat) * scale)
         (neg && digitsToNat ds == 0), rest)) := by
-  have htd := takeDigits_append ds rest hd (fun c r h => (hr c r h).1)
-  have h2 := (readNum2_nodot neg ds rest hne (fun r h => (hr _ _ h).2.1 rfl)).trans
-      (readNum3_int neg ds rest (fun c r h => (hr c r h).2.2))
+  have htn := takeNumChars_append ds rest (fun c hc => isNumChar_of_isDigit (hd c hc)) hr
+  have hp : parseNumTok neg ds rest = some (numberValue neg ds [] rest) := by
+    cases ds with
+    | nil => exact absurd rfl hne
+    | cons c t =>
+      rw [parseNumTok_digit neg c t rest (hd c (by simp))
+        (by intro hc d t' ht; subst hc; subst ht; exact absurd rfl (fun h => hlz d t' h))]
+      exact parseMantissa_int neg _ rest hne hd
+  rw [numberValue_int neg ds rest hrep] at hp
   cases neg with
   | true =>
-    simp only [if_true, List.cons_append, List.nil_append, readNumber_neg, htd] at h2 ⊢
-    exact h2
+    simp only [if_true, List.cons_append, List.nil_append, readNumber_neg, htn] at hp ⊢
+    exact hp
   | false =>
     cases ds with
     | nil => exact absurd rfl hne
     | cons c t =>
-      simp only [Bool.false_eq_true, if_false, List.nil_append, List.cons_append] at htd h2 ⊢
-      rw [readNumber_pos c _ (isDigit_ne_minus (hd c (by simp))), htd]
-      exact h2
+      simp only [Bool.false_eq_true, if_false, List.nil_append, List.cons_append] at htn hp ⊢
+      rw [readNumber_pos c _ (isDigit_ne_minus (hd c (by simp))), htn]
+      exact hp
 
 theorem toDigits_isDigit (n : Nat) : ∀ c ∈ Nat.toDigits 10 n, c.isDigit = true :=
   fun _ hc => Nat.isDigit_of_mem_toDigits (by omega) (by omega) hc
 
 theorem digitsToNat_toDigits (n : Nat) : digitsToNat (Nat.toDigits 10 n) = n := by
   rw [digitsToNat_eq]; exact Nat.ofDigitChars_ten_toDigits
+
+theorem digitChar_ne_zero {n : Nat} (h0 : 0 < n) (h : n < 10) : Nat.digitChar n ≠ '0' := by
+  have : n = 1 ∨ n = 2 ∨ n = 3 ∨ n = 4 ∨ n = 5 ∨ n = 6 ∨ n = 7 ∨ n = 8 ∨ n = 9 := by omega
+  rcases this with rfl | rfl | rfl | rfl | rfl | rfl | rfl | rfl | rfl <;> decide
+
+/-- the decimal digits of a positive number do not start with a zero -/
+theorem toDigits_head_ne_zero : ∀ n : Nat, 0 < n → ∀ t, Nat.toDigits 10 n ≠ '0' :: t := by
+  intro n
+  induction n using Nat.strongRecOn with
+  | _ n ih =>
+    intro hn t
+    rw [Nat.toDigits_eq_if (by omega)]
+    split
+    · rename_i h
+      intro e
+      simp only [List.cons.injEq] at e
+      exact digitChar_ne_zero hn h e.1
+    · rename_i h
+      have hq : 0 < n / 10 := Nat.div_pos (by omega) (by omega)
+      intro e
+      cases hd : Nat.toDigits 10 (n / 10) with
+      | nil => exact Nat.toDigits_ne_nil hd
+      | cons c t' =>
+        rw [hd] at e
+        simp only [List.cons_append, List.cons.injEq] at e
+        exact ih (n / 10) (Nat.div_lt_self hn (by omega)) hq t' (by rw [hd, e.1])
+
+theorem noLeadZero_toDigits (n : Nat) : NoLeadZero (Nat.toDigits 10 n) := by
+  intro d t h
+  by_cases hn : n = 0
+  · subst hn; rw [Nat.toDigits_zero] at h; cases h
+  · exact toDigits_head_ne_zero n (by omega) _ h
+
+theorem noLeadZero_zero : NoLeadZero ['0'] := by intro d t h; cases h
 
 /-- the printed form of an integer: optional sign, then the digits of its absolute value -/
 theorem toString_int_toList (i : Int) :
@@ -153,17 +248,27 @@ theorem toString_int_toList (i : Int) :
     simp [h, this, h', Nat.toList_repr, String.toList_append]
 
 /-- reading a printed integer yields the float of the same numeric value -/
-theorem readNumber_int (i : Int) (rest : List Char) (hr : NumEnd rest) :
+theorem readNumber_int (i : Int) (rest : List Char) (hr : NumEnd rest)
+    (hrep : isFloat64Units (i * scale) = true) :
     ∃ z, readNumber ((toString i).toList ++ rest) = some (.ok (.float (i * scale) z, rest)) := by
   rw [toString_int_toList]
+  have hrep' : isFloat64Units (((digitsToNat (Nat.toDigits 10 i.natAbs) : Nat) : Int) * scale) = true := by
+    rw [digitsToNat_toDigits]
+    by_cases hneg : i < 0
+    · have e0 : (i.natAbs : Int) = -i := by omega
+      rw [e0, Int.neg_mul, isFloat64Units_neg]; exact hrep
+    · have e : (i.natAbs : Int) = i := by omega
+      rw [e]; exact hrep
   have := readNumber_digits (decide (i < 0)) (Nat.toDigits 10 i.natAbs) rest Nat.toDigits_ne_nil
-    (toDigits_isDigit _) hr
+    (toDigits_isDigit _) (noLeadZero_toDigits _) hr hrep'
   rw [digitsToNat_toDigits] at this
   simp only [decide_eq_true_eq] at this
   have hval : (if i < 0 then -((i.natAbs : Int) * scale) else (i.natAbs : Int) * scale) = i * scale := by
     split
-    · rw [← Int.neg_mul]; congr 1; omega
-    · congr 1; omega
+    · have e0 : (i.natAbs : Int) = -i := by omega
+      rw [e0, Int.neg_mul, Int.neg_neg]
+    · have e0 : (i.natAbs : Int) = i := by omega
+      rw [e0]
   rw [hval] at this
   exact ⟨_, this⟩
 
@@ -264,8 +369,14 @@ theorem floatText_big_read (m : Int) (k : Nat) (hk : 1074 ≤ k) (s : String) (h
     rw [htl]
     refine ⟨by simpa using start_signed (decide (m < 0)) _ [] Nat.toDigits_ne_nil (toDigits_isDigit _), ?_⟩
     intro rest hr
+    rename_i hlen15
+    have hrep : isFloat64Units (((digitsToNat (Nat.toDigits 10 (m.natAbs * 2 ^ (k - 1074))) : Nat) : Int) * scale) = true := by
+      rw [digitsToNat_toDigits]
+      unfold scale
+      rw [← natCast_mul_two_pow]
+      exact isFloat64Units_mantissa _ 1074 (lt_two_pow_53_of_digits hlen15) (by omega)
     have := readNumber_digits (decide (m < 0)) _ rest Nat.toDigits_ne_nil
-      (toDigits_isDigit (m.natAbs * 2 ^ (k - 1074))) hr
+      (toDigits_isDigit (m.natAbs * 2 ^ (k - 1074))) (noLeadZero_toDigits _) hr hrep
     rw [digitsToNat_toDigits] at this
     have hval : (if decide (m < 0) = true then -(((m.natAbs * 2 ^ (k - 1074) : Nat) : Int) * scale)
         else ((m.natAbs * 2 ^ (k - 1074) : Nat) : Int) * scale) = m * 2 ^ k := by
@@ -278,8 +389,10 @@ theorem floatText_big_read (m : Int) (k : Nat) (hk : 1074 ≤ k) (s : String) (h
 
 /-- reading a printed decimal fraction: `cs` are the digits, the last `d` of them after the point -/
 theorem readNumber_decimal (neg : Bool) (cs rest : List Char) (d a k : Nat) (hlen : d + 1 ≤ cs.length)
-    (hdig : ∀ c ∈ cs, c.isDigit = true) (hk : 1074 - d = k) (hd : d ≤ 1074)
-    (hval : digitsToNat cs = a * 5 ^ d) (hr : NumEnd rest) :
+    (hd1 : 1 ≤ d)
+    (hdig : ∀ c ∈ cs, c.isDigit = true) (hlz : NoLeadZero (cs.take (cs.length - d)))
+    (hk : 1074 - d = k) (hd : d ≤ 1074)
+    (hval : digitsToNat cs = a * 5 ^ d) (hr : NumEnd rest) (ha : a < 2 ^ 53) :
     readNumber ((if neg = true then ['-'] else []) ++ cs.take (cs.length - d) ++
         '.' :: (cs.drop (cs.length - d) ++ rest)) =
       some (.ok (.float (if neg = true then -((a : Int) * 2 ^ k) else (a : Int) * 2 ^ k)
@@ -292,38 +405,73 @@ theorem readNumber_decimal (neg : Bool) (cs rest : List Char) (d a k : Nat) (hle
     simp at this
     omega
   have hfl : (cs.drop (cs.length - d)).length = d := by simp; omega
-  have htd1 := takeDigits_append (cs.take (cs.length - d)) ('.' :: (cs.drop (cs.length - d) ++ rest)) hip
-    (by intro c r h; cases h; rfl)
-  have htd2 := takeDigits_append (cs.drop (cs.length - d)) rest hfp (fun c r h => (hr c r h).1)
+  have hfpne : cs.drop (cs.length - d) ≠ [] := by
+    intro h
+    rw [h] at hfl
+    simp at hfl
+    omega
+  have htok : ∀ c ∈ cs.take (cs.length - d) ++ '.' :: cs.drop (cs.length - d), isNumChar c = true := by
+    intro c hc
+    rcases List.mem_append.1 hc with hc | hc
+    · exact isNumChar_of_isDigit (hip c hc)
+    · rcases List.mem_cons.1 hc with rfl | hc
+      · rfl
+      · exact isNumChar_of_isDigit (hfp c hc)
+  have htn := takeNumChars_append _ rest htok hr
   have hq : digitsToNat (cs.take (cs.length - d) ++ cs.drop (cs.length - d)) *
       2 ^ (1074 - (cs.drop (cs.length - d)).length) = (a * 2 ^ k) * 5 ^ (cs.drop (cs.length - d)).length := by
     rw [List.take_append_drop, hfl, hk, hval]
     ac_rfl
-  have h3 := readNum3_ok neg (cs.take (cs.length - d)) (cs.drop (cs.length - d)) rest (a * 2 ^ k)
-    (fun c r h => (hr c r h).2.2) (by rw [hfl]; exact hd) hq
+  have h3 := numberValue_ok neg (cs.take (cs.length - d)) (cs.drop (cs.length - d)) rest (a * 2 ^ k)
+    (by rw [hfl]; exact hd) hq (isFloat64Units_mantissa a k ha (by omega))
   rw [List.take_append_drop, natCast_mul_two_pow] at h3
-  have h2 := readNum2_dot neg _ (cs.drop (cs.length - d) ++ rest) hipne
-  rw [htd2] at h2
-  simp only [] at h2
-  rw [h3] at h2
+  have hp : parseNumTok neg (cs.take (cs.length - d) ++ '.' :: cs.drop (cs.length - d)) rest =
+      some (numberValue neg (cs.take (cs.length - d)) (cs.drop (cs.length - d)) rest) := by
+    cases hc : cs.take (cs.length - d) with
+    | nil => exact absurd hc hipne
+    | cons c t =>
+      rw [hc] at hip hlz
+      rw [List.cons_append, parseNumTok_digit neg c _ rest (hip c (by simp))
+        (by
+          intro hc0 d' t' ht
+          subst hc0
+          cases t with
+          | nil => simp at ht; rw [← ht.1]; rfl
+          | cons x t'' =>
+            simp only [List.cons_append, List.cons.injEq] at ht
+            exact absurd rfl (fun h => hlz x t'' h))]
+      rw [← List.cons_append]
+      exact parseMantissa_dec neg _ _ rest hfpne hip hfp
+  rw [h3] at hp
+  have hassoc : ∀ pre : List Char, pre ++ cs.take (cs.length - d) ++ '.' :: (cs.drop (cs.length - d) ++ rest) =
+      pre ++ ((cs.take (cs.length - d) ++ '.' :: cs.drop (cs.length - d)) ++ rest) := by
+    intro pre; simp
+  rw [hassoc]
   cases neg with
   | true =>
-    simp only [if_true, List.cons_append, List.nil_append, readNumber_neg, htd1] at h2 ⊢
-    exact h2
+    simp only [if_true, List.cons_append, List.nil_append, readNumber_neg, htn] at hp ⊢
+    exact hp
   | false =>
     cases hc : cs.take (cs.length - d) with
     | nil => exact absurd hc hipne
     | cons c t =>
-      rw [hc] at htd1 h2 hip
-      simp only [Bool.false_eq_true, if_false, List.nil_append, List.cons_append] at htd1 h2 ⊢
-      rw [readNumber_pos c _ (isDigit_ne_minus (hip c (by simp))), htd1]
-      exact h2
+      rw [hc] at htn hp hip
+      simp only [Bool.false_eq_true, if_false, List.nil_append, List.cons_append] at htn hp ⊢
+      rw [readNumber_pos c _ (isDigit_ne_minus (hip c (by simp))), htn]
+      exact hp
+
+theorem noLeadZero_take {l : List Char} (h : NoLeadZero l) (n : Nat) : NoLeadZero (l.take n) := by
+  intro d t e
+  have h2 := List.take_append_drop n l
+  rw [e] at h2
+  exact h d (t ++ l.drop n) (by simpa using h2.symm)
 
 /-- the digits of the fraction form, padded with leading zeros -/
 theorem padded_props (D d : Nat) :
     let digits := toString D
     let padded := if digits.length ≤ d then String.ofList (List.replicate (d + 1 - digits.length) '0') ++ digits else digits
-    d + 1 ≤ padded.toList.length ∧ (∀ c ∈ padded.toList, c.isDigit = true) ∧ digitsToNat padded.toList = D := by
+    d + 1 ≤ padded.toList.length ∧ (∀ c ∈ padded.toList, c.isDigit = true) ∧ digitsToNat padded.toList = D ∧
+      NoLeadZero (padded.toList.take (padded.toList.length - d)) := by
   intro digits padded
   have hdl : digits.toList = Nat.toDigits 10 D := by
     simp only [digits]; rw [Nat.toString_eq_repr, Nat.toList_repr]
@@ -332,17 +480,24 @@ theorem padded_props (D d : Nat) :
   · have hp : padded.toList = List.replicate (d + 1 - digits.length) '0' ++ Nat.toDigits 10 D := by
       simp only [padded, if_pos h, String.toList_append, String.toList_ofList, hdl]
     rw [hp]
-    refine ⟨by simp; omega, ?_, ?_⟩
+    refine ⟨by simp; omega, ?_, ?_, ?_⟩
     · intro c hc
       rcases List.mem_append.1 hc with hc | hc
       · rw [List.eq_of_mem_replicate hc]; rfl
       · exact toDigits_isDigit D c hc
     · rw [digitsToNat_eq, Nat.ofDigitChars_append, Nat.ofDigitChars_replicate_zero, Nat.mul_zero,
         Nat.ofDigitChars_ten_toDigits]
+    · have hl : (List.replicate (d + 1 - digits.length) '0' ++ Nat.toDigits 10 D).length - d = 1 := by
+        simp; omega
+      rw [hl]
+      intro x t e
+      have := congrArg List.length e
+      simp at this
+      omega
   · have hp : padded.toList = Nat.toDigits 10 D := by
       simp only [padded, if_neg h, hdl]
     rw [hp]
-    exact ⟨by omega, toDigits_isDigit D, digitsToNat_toDigits D⟩
+    exact ⟨by omega, toDigits_isDigit D, digitsToNat_toDigits D, noLeadZero_take (noLeadZero_toDigits D) _⟩
 
 /-- the fraction form -/
 theorem floatText_small_read (m : Int) (k : Nat) (hk : k < 1074) (s : String) (h : floatText m k = some s) :
@@ -355,15 +510,19 @@ theorem floatText_small_read (m : Int) (k : Nat) (hk : k < 1074) (s : String) (h
   rw [if_neg he, het] at h
   split at h
   · cases h
+  rename_i hlen15
   split at h
   · cases h
   simp only [Option.some.injEq] at h
   subst h
-  obtain ⟨hlen, hdig, hval⟩ := padded_props (m.natAbs * 5 ^ (1074 - k)) (1074 - k)
+  have ha53 : m.natAbs < 2 ^ 53 := by
+    have h1 : m.natAbs * 5 ^ (1074 - k) < 2 ^ 53 := lt_two_pow_53_of_digits (by omega)
+    exact Nat.lt_of_le_of_lt (Nat.le_mul_of_pos_right _ (Nat.pow_pos (by omega))) h1
+  obtain ⟨hlen, hdig, hval, hlz⟩ := padded_props (m.natAbs * 5 ^ (1074 - k)) (1074 - k)
   generalize (if (toString (m.natAbs * 5 ^ (1074 - k))).length ≤ 1074 - k then
       String.ofList (List.replicate (1074 - k + 1 - (toString (m.natAbs * 5 ^ (1074 - k))).length) '0') ++
         toString (m.natAbs * 5 ^ (1074 - k))
-    else toString (m.natAbs * 5 ^ (1074 - k))).toList = cs at hlen hdig hval ⊢
+    else toString (m.natAbs * 5 ^ (1074 - k))).toList = cs at hlen hdig hval hlz ⊢
   have htl : ((if m < 0 then "-" else "") ++ String.ofList (List.take (cs.length - (1074 - k)) cs) ++ "." ++
       String.ofList (List.drop (cs.length - (1074 - k)) cs)).toList =
       (if decide (m < 0) = true then ['-'] else []) ++ cs.take (cs.length - (1074 - k)) ++
@@ -378,8 +537,8 @@ theorem floatText_small_read (m : Int) (k : Nat) (hk : k < 1074) (s : String) (h
     omega
   refine ⟨start_signed (decide (m < 0)) _ _ hipne (fun c hc => hdig c (List.mem_of_mem_take hc)), ?_⟩
   intro rest hr
-  have := readNumber_decimal (decide (m < 0)) cs rest (1074 - k) m.natAbs k hlen hdig (by omega) (by omega)
-    hval hr
+  have := readNumber_decimal (decide (m < 0)) cs rest (1074 - k) m.natAbs k hlen (by omega) hdig hlz (by omega)
+    (by omega) hval hr ha53
   rw [signed_eq] at this
   rw [List.append_assoc, List.cons_append]
   exact ⟨_, this⟩
@@ -398,13 +557,13 @@ theorem jsonFloat_read (u : Int) (z : Bool) (s : String) (h : jsonFloat u z = so
     cases z with
     | true =>
       refine ⟨⟨'-', _, rfl, .inl rfl⟩, fun rest hr => ?_⟩
-      have := readNumber_digits true ['0'] rest (by simp) (by simp) hr
+      have := readNumber_digits true ['0'] rest (by simp) (by simp) noLeadZero_zero hr isFloat64Units_zero_digit
       have e : digitsToNat ['0'] = 0 := rfl
       simp only [if_true, e, Int.natCast_zero, Int.zero_mul, Int.neg_zero] at this
       exact ⟨_, this⟩
     | false =>
       refine ⟨⟨'0', _, rfl, .inr rfl⟩, fun rest hr => ?_⟩
-      have := readNumber_digits false ['0'] rest (by simp) (by simp) hr
+      have := readNumber_digits false ['0'] rest (by simp) (by simp) noLeadZero_zero hr isFloat64Units_zero_digit
       have e : digitsToNat ['0'] = 0 := rfl
       simp only [Bool.false_eq_true, if_false, e, Int.natCast_zero, Int.zero_mul] at this
       exact ⟨_, this⟩
